@@ -386,7 +386,7 @@ Section Nest.
           | None => Ok (DError 4 a, s)
           | Some file_content =>
               let '(literal, ho) := include_opts (p_optblock p) in
-              let file_content := join nl (splitlines file_content) in
+              let file_content := join nl (split_lines file_content) in
               if literal then Ok (DNodes [Node NLiteral file_content (Some 1) []], s)
               else if mem_str a (o_source orc :: s_incl (shr s)) then
                 Ok (DError 2 a, s)                               (* circular inclusion *)
@@ -599,7 +599,7 @@ Section Nest.
           | None => Ok (DError 4 a, [], h, false)
           | Some file_content =>
               let '(literal, iho) := include_opts (p_optblock p) in
-              let file_content := join nl (splitlines file_content) in
+              let file_content := join nl (split_lines file_content) in
               if literal then Ok (DNodes [Node NLiteral file_content (Some 1) []], [], h, false)
               else if mem_str a (o_source orc :: s_incl h) then Ok (DError 2 a, [], h, false)
               else
